@@ -5,11 +5,11 @@ import json
 TECH = "deterministic simulation with fault injection (seeded whole-system simulator, synctest fake clock, simulated network, import-facade seams)"
 
 CHECKS = {
- "C01": ("router family, arm garbage: malformed client input on every listener kind and malformed upstream replies; oracle: child process must not die (panic/fatal = violation with stack); valid probe queries on fresh transports of every listener (single or bursts of up to 12 with segmented frames) 1.5 s and 10 s after the last garbage input are answered with their own id and question; a run whose SIGQUIT dump shows a goroutine spinning in repository code is a hang; in 40 % of runs the buffer-pool facade lets a detected double release through to the real pool so that its consequences show",
-         "gnet engine is a stub with ported buffer semantics; udp.multi_routes ancillary-data parsing is not reached; redis replies are not byte strings here (client library stubbed)"),
+ "C01": ("router family, arm garbage: malformed client input on every listener kind and malformed upstream replies; oracle: child process must not die (panic/fatal = violation with stack); valid probe queries on fresh transports of every listener (single or bursts of up to 12 with segmented frames) 1.5 s and 10 s after the last garbage input are answered with their own id and question; a run whose SIGQUIT dump shows a goroutine spinning in repository code is a hang; in 40 % of runs the buffer-pool facade lets a detected double release through to the real pool so that its consequences show; http listeners also get raw requests a conforming client would not send (POST without body, Content-Length lies, chunked bodies, broken header lines)",
+         "gnet engine is a stub with ported buffer semantics; udp.multi_routes control messages are always well-formed; redis replies are not byte strings here (client library stubbed)"),
  "C02": ("router family: answers with binary labels, shared suffixes, SRV/SOA/MX/unknown types, compression layouts; client-visible response is decoded by an independent strict codec (refdns) and compared record by record with the regenerated upstream original (names octet-exact, RDATA names decompressed, unknown types byte for byte, TTL on the fresh path, header bits AA/AD/CD/rcode); a response an independent decoder rejects is a codec failure; arm garbage mixes cut-short upstream answers and malformed queries with the valid traffic; answer shape with names first occurring beyond offset 16383; arm codec drives dnsmsg.UnpackMsg / Msg.Pack (no size limit, both compression modes) directly with a history of generated messages (every shape, OPT at any position, cut-short ones in between, several decoded messages alive at a time) under the pool facades: re-encoding decoded by the independent codec equals the original record by record in order, uncompressed length == Len()",
          "the comparison base is the harness's own generator + codec; the 'uncompressed encoding has exactly the advertised length' clause is only seen indirectly (cache stores failing)"),
- "C03": ("router family, arms clean/faults: every decodable QR=0 query on udp/tcp/gnet/tls/http/fasthttp/https listeners x upstream outcomes (reply, error rcodes, garbage, FIN/RST, silence, loss/dup on datagram links): exactly one response within 6 s + 1 s, ID/opcode/QR/RA/RD/question, NOTIMP / REFUSED (reference rule evaluation) / SERVFAIL classes",
+ "C03": ("router family, arms clean/faults: every decodable QR=0 query on udp/tcp/gnet/tls/http/fasthttp/https listeners x upstream outcomes (reply, error rcodes, garbage, FIN/RST, silence, loss/dup on datagram links): exactly one response within 6 s + 1 s, ID/opcode/QR/RA/RD/question, NOTIMP / REFUSED (reference rule evaluation) / SERVFAIL classes; answers around 64 KiB (a udp reply must fit a datagram); udp multi_routes sockets: a query to another local address of the socket is answered from that address (IP_PKTINFO ancillary data on the simulated socket)",
          "fake upstreams echo the question they received; client links fault-free; limiter off; idle_timeout >= 8 s"),
  "C04": ("router family, high concurrency, yields at lock sites, GC events, tiny/ample/no cache, UDP batches: every record of every response must come from the answer the selected upstream generated for that response's own (token, class, type) and serial (metadata record + upstream log); arm prefetch (background refreshes next to unrelated traffic), arm late (replies after the transports' 6 s I/O limit on connections that are then reused); repeats of a name also ask the neighbouring type (T xor 1) and other classes; records generated for another (class, type) are a violation whatever the question section says",
          "interleavings explored at lock boundaries, blocking operations and network events only"),
@@ -17,29 +17,29 @@ CHECKS = {
          "TLS hides wire ids from the network, the fake server's log is used there"),
  "C06": ("transport family over tcp / tls / TCP leg of udp: callers give up before/during/after the reply, server delays, splits, aborts, idle time-outs 50 ms..10 s, yields and stalls at the transport's lock sites; server-side invariant: no query arrives on a connection with an unanswered earlier query; every returned message is the reply to the caller's own question with its id",
          "server sends exactly one reply per query (precondition of the statement)"),
- "C07": ("router family with memory cache, ip-marker groups, timed repeats of few keys varying case/class/type/client group: a cache hit must be for the same question and group, equal the first relay apart from TTL/ID; converse with ample capacity: no request-path exchange while >2.1 s of the reference lifetime remain; a response with records for another question given without an upstream exchange for the own question is a stored response under the wrong key; arms prefetch and redis (second level on a simulated redis server, small memory cache in half the runs: promotion path)",
+ "C07": ("router family with memory cache, ip-marker groups, timed repeats of few keys varying case/class/type/client group: a cache hit must be for the same question and group, equal the first relay apart from TTL/ID; converse with ample capacity: no request-path exchange while >2.1 s of the reference lifetime remain; a response with records for another question given without an upstream exchange for the own question is a stored response under the wrong key; arms prefetch and redis (second level on a simulated redis server, small memory cache in half the runs: promotion path); a hit must not be truncated when the first relay of that answer was complete and the client's limit exceeds its size plus its largest record (answers near 64 KiB)",
          "redis is reached through a stub of the client library (no RESP framing); group attribution of a fetch uses the requests pending at that instant"),
- "C08": ("same family with edge TTL vectors (0, 1, 2^32-1), rcodes, TC answers, max TTL, queries around expiry: sound inequalities on every hit (TTL <= max(1, upstream TTL - whole seconds certainly elapsed)), nothing served after lifetime + 2 s, TC answers never served from cache, a negative answer never displaces a live positive entry; arm redis (entries promoted from the second level keep their original expiry)",
+ "C08": ("same family with edge TTL vectors (0, 1, 2^32-1), rcodes, TC answers, max TTL, queries around expiry: sound inequalities on every hit (TTL <= max(1, upstream TTL - whole seconds certainly elapsed)), nothing served after lifetime + 2 s, TC answers never served from cache, a negative answer never displaces a live positive entry; arm redis (entries promoted from the second level keep their original expiry); record-less answers (empty NOERROR, NODATA without SOA) obey the default lifetime; max TTL caps the whole lifetime",
          "redis client library stubbed; lifetime policy is the one in the statement; latencies bound the unknown store instant"),
- "C09": ("router family with answers from 400 bytes to >64 KiB, OPT at any position, clients with advertised sizes 0..65535 and stream/HTTP clients: size limit, strict decode (counts = records present, no trailing bytes), TC iff records omitted, OPT kept, kept records an order-preserving subsequence, nothing omitted when the uncompressed size fits; answer shape 'tight' (small records of every interpreted type with names that share nothing: the limit falls on any record type without compression slack)",
-         "limit 0 and 'limit without compression' are not reachable through a listener"),
- "C10": ("router family with generated rule lists (reverse, reject, forward, no action, shared domain sets): reference first-match evaluation vs which fake upstream saw the token (never another one, also not by prefetch), forwarded question (one question, lower-cased, same class/type, RD=1), client rcode for reject/refused; arm startfault: unknown/duplicate tags, missing tag/addr must make run() fail and leave nothing open; arm cli: the real `router -c <file>` command runs inside the bubble on the YAML rendering of a generated configuration with an unknown key at a seeded mapping node and must exit with the strict decoder's fatal error (control runs without the key must start); every question seen by an upstream must be one some client asked; scheduling points inserted into the rule evaluation and the domain matcher; names use the whole alphabet including its ends and their ASCII neighbours",
+ "C09": ("router family with answers from 400 bytes to >64 KiB, OPT at any position, clients with advertised sizes 0..65535 and stream/HTTP clients: size limit, strict decode (counts = records present, no trailing bytes), TC iff records omitted, OPT kept, kept records an order-preserving subsequence, nothing omitted when the uncompressed size fits; answer shape 'tight' (small records of every interpreted type with names that share nothing: the limit falls on any record type without compression slack); answers within a few hundred octets of 65535 on stream listeners; arm codec: Msg.Pack with a size limit called directly — at Len() nothing is cut, at Len()-1 and seeded smaller limits the result decodes strictly, has TC, respects the limit and keeps a prefix of the records",
+         "limit 0 and 'limit without compression' are reached only by the codec arm"),
+ "C10": ("router family with generated rule lists (reverse, reject, forward, no action, shared domain sets): reference first-match evaluation vs which fake upstream saw the token (never another one, also not by prefetch), forwarded question (one question, lower-cased, same class/type, RD=1), client rcode for reject/refused; arm startfault: unknown/duplicate tags, missing tag/addr must make run() fail and leave nothing open; arm cli: the real `router -c <file>` command runs inside the bubble on the YAML rendering of a generated configuration with an unknown key at a seeded mapping node and must exit with the strict decoder's fatal error (control runs without the key must start); every question seen by an upstream must be one some client asked; scheduling points inserted into the rule evaluation and the domain matcher; names use the whole alphabet including its ends and their ASCII neighbours; empty domain-set files and rules whose set matches nothing",
          "the cli arm's rejection verdict is written before the command runs and accepted only together with exit status 1 and the decoder's message on stderr"),
  "C11": ("same runs as C10 with the domain-set generator in front: full:/domain:/bare/regexp: entries, parents/children/duplicates in every order across several files, comments, case; routing outcome must equal the declarative set-based reference; labels with the ends of the alphabet, their ASCII neighbours, '_', '*', space and control octets; regexp entries addressing escaped octets (\\DDD) and label lengths",
          "entry files cannot carry every octet (no escapes in the format); regexp entries are generated lower-case"),
  "C12": ("router family: clients with/without OPT, options (cookie, ECS, padding), DO/version bits, odd sizes; upstream replies with OPT and options; ECS on/off; v4, v6, v4-mapped, unknown (abstract unix / header-supplied) client addresses; oracle at the client (OPT iff query had one, no options, TTL field 0, constant size) and at the fake upstream (exactly one OPT, only ECS, exact /24 or /56 prefix of the address the network knows); arm overload: refusals made by a listener itself; arm prefetch: the background refresh's ECS is the triggering client's prefix",
          ""),
- "C13": ("router family on tcp/tls/gnet listeners: k=1..40 pipelined frames under seeded segmentation (byte-at-a-time, cuts inside the prefix, coalesced writes), handlers finishing out of order; the client re-parses its inbound byte stream (prefix = body length, every body decodes, id multiset equality); arm overload: burst beyond max_concurrent_queries must be answered REFUSED",
+ "C13": ("router family on tcp/tls/gnet listeners: k=1..40 pipelined frames under seeded segmentation (byte-at-a-time, cuts inside the prefix, coalesced writes), handlers finishing out of order; the client re-parses its inbound byte stream (prefix = body length, every body decodes, id multiset equality); arm overload: burst beyond max_concurrent_queries must be answered REFUSED; answers around the 65535-octet frame limit (every frame's prefix equals its body length; over-long answers arrive truncated, never as a wrapped length)",
          "gnet engine stub (buffer semantics ported from gnet v2.3.6); TLS records are real"),
- "C14": ("transport family over every simulated upstream kind: refuse / black-hole / silent / half frame / garbage / FIN / RST / partitions / server crash+restart / idle-connection closes, placed by the seed: every ExchangeContext returns by its deadline + 1 s; against a healthy reachable server it succeeds (stale pooled connections are retried); waiters on a reset multiplexed connection leave it within 1 s; dial count bounded; a call never returns a message together with an error; rare arm: >65536 exchanges through one connection, every exchange of the concurrent tail must succeed against the healthy server",
+ "C14": ("transport family over every simulated upstream kind: refuse / black-hole / silent / half frame / garbage / FIN / RST / partitions / server crash+restart / idle-connection closes, placed by the seed: every ExchangeContext returns by its deadline + 1 s; against a healthy reachable server it succeeds (stale pooled connections are retried); waiters on a reset multiplexed connection leave it within 1 s; dial count bounded; a call never returns a message together with an error; rare arm: >65536 exchanges through one connection, every exchange of the concurrent tail must succeed against the healthy server; DoQ / DoH3 servers with stream limits of 1..4 (callers queue for streams; cancelled exchanges must give their stream back)",
          "quic-go runs as a patched copy (fake-clock fixes, DESIGN.md 2.2)"),
  "C15": ("arm unit: the exported ClientLimiter driven under the fake clock with generated (address, time, cost) histories and configurations (limit, burst, masks present/omitted/out of range) against a textbook token bucket per subnet as the statement defines it (decisions compared except within 1e-6 tokens of the threshold; bound burst + rate x window on the real decisions); arm e2e: router with limiter, heavy and light subnets on udp/tcp/gnet/tls/http(s): admitted queries per subnet obey the bound, refusals are REFUSED / 503 and never forwarded, a subnet far inside its own budget is never refused (neither by REFUSED / 503 nor by its connection being closed at accept); quic listener included; one query per connection or many queries behind one accepted stream / QUIC connection",
          "idle-bucket garbage collection (entries dropped after a minute) is part of what the unit arm compares"),
- "C16": ("transport family on udp:// with UDP and TCP fake servers on one address: TC on the UDP reply => TCP server sees the question and the caller gets exactly the TCP outcome; no TC => UDP reply returned, TCP untouched; the TCP server closes idle connections between truncated replies (stale pooled connection on the TCP leg); a message returned together with an error is a violation; a returned message must be the answer to the call's own question (TCP-leg replies later than the 6 s I/O limit are generated)",
+ "C16": ("transport family on udp:// with UDP and TCP fake servers on one address: TC on the UDP reply => TCP server sees the question and the caller gets exactly the TCP outcome; no TC => UDP reply returned, TCP untouched; the TCP server closes idle connections between truncated replies (stale pooled connection on the TCP leg); a message returned together with an error is a violation; a returned message must be the answer to the call's own question (TCP-leg replies later than the 6 s I/O limit are generated); partial TC replies (records present and TC set) must fall back too",
          ""),
- "C17": ("arm addr (fault_enumeration-like: the product scheme (10, incl. quic and h3) x host form x port x dial_addr form, 800 combinations, is covered completely by a batch, 24 consecutive combinations per run; udp cases get a second exchange with a truncated UDP reply so that the TCP leg's dial target is checked): dial target recorded by the network facade and SNI/Host seen by a fake server vs values derived from the structured case; arm auth: 180 combinations of upstream kind x server certificate (good, wrong name, other CA, expired, not yet valid, self-signed) x option (ca, none, skip): success iff the reference predicate, and no query reaches an unauthenticated peer; arm mtls: tls/https listeners with verify_client_cert vs clients with acceptable / foreign / no certificate, clients that never speak TLS, and clients that continue in plain DNS-over-TCP on the same connection after the handshake was refused",
+ "C17": ("arm addr (fault_enumeration-like: the product scheme (10, incl. quic and h3) x host form x port x dial_addr form, 800 combinations, is covered completely by a batch, 24 consecutive combinations per run; udp cases get a second exchange with a truncated UDP reply so that the TCP leg's dial target is checked): dial target recorded by the network facade and SNI/Host seen by a fake server vs values derived from the structured case; arm auth: 180 combinations of upstream kind x server certificate (good, wrong name, other CA, expired, not yet valid, self-signed) x option (ca, none, skip): success iff the reference predicate, and no query reaches an unauthenticated peer; arm mtls: tls/https listeners with verify_client_cert vs clients with acceptable / foreign / no certificate, clients that never speak TLS, and clients that continue in plain DNS-over-TCP on the same connection after the handshake was refused; the process trust store holds exactly one root (the PKI's other CA), so falling back to system roots instead of the configured CA is visible in both directions",
          "certificates use a fixed epoch matching the bubble's clock"),
- "C18": ("arms latedial (reuse / pipeline / quic transports over an injected dialer whose dial completes after Close), xclose (Close of every upstream kind at a seeded instant, twice, racing dials/exchanges/idle timers), rclose (router close during traffic), startfault (address in use, bad PEM, unknown protocol/scheme, missing file): Close returns within 1 s fake, later exchanges fail within 1 s, exchanges in flight return within 1 s of Close (not at their own deadline), after 150 s grace the simulated network shows no socket owned by the proxy, run() returns an error and leaves nothing open, no panic",
+ "C18": ("arms latedial (reuse / pipeline / quic transports over an injected dialer whose dial completes after Close), xclose (Close of every upstream kind at a seeded instant, twice, racing dials/exchanges/idle timers), rclose (router close during traffic), startfault (address in use, bad PEM, unknown protocol/scheme, missing file, metrics endpoint address in use; with and without a cache configured): Close returns within 1 s fake, later exchanges fail within 1 s, exchanges in flight return within 1 s of Close (not at their own deadline), after 150 s grace the simulated network shows no socket owned by the proxy, run() returns an error and leaves nothing open, no panic",
          "arm latedial builds the exported transports directly over an injected dialer that ignores its context (connections whose dial completes after Close must be closed)"),
  "C20": ("arms router / xport / prefetch with yields, stalls, GC events and failing upstreams: (1) a third of the runs of every arm use a -race build of the simulator: a DATA RACE report with a repository frame is a violation; (2) the buffer pool facade poisons on release, quarantines and verifies buffers (write-after-release, double release, aliased hand-out); (3) the object pools of dnsmsg and router (messages, records, questions, request contexts) are a facade that overwrites released objects with recognisable values, detects a second Put and a write while free, and restores them on Get; fake upstreams and the client-side oracle flag either poison pattern on the wire (read-after-release)",
          "race builds randomise scheduling, their replay is best effort; interleavings at lock boundaries / blocking points only"),
